@@ -154,7 +154,7 @@ func checkC18(c *Ctx) {
 	// ---- R2 metrics ---------------------------------------------------------------------
 	reachesMetric := func(f *ssa.Function, method string) bool {
 		found := false
-		for g := range m.staticReach(f, false) {
+		for _, g := range sortedFns(m.staticReach(f, false)) {
 			eachInstr(g, func(in ssa.Instruction) {
 				if call, ok := in.(*ssa.Call); ok && call.Call.IsInvoke() && call.Call.Method.Name() == method {
 					found = true
